@@ -13,7 +13,9 @@
 package tokens
 
 import (
+	"crypto/sha256"
 	"encoding/base64"
+	"encoding/binary"
 	"errors"
 	"fmt"
 	"math"
@@ -92,7 +94,7 @@ func isValidTokenOptions(op TokenOptions) bool {
 func generateBaseMacaroon(
 	secret []byte, ServerName string, userID string,
 ) (*macaroon.Macaroon, error) {
-	mac, err := macaroon.New(secret, []byte(userID), ServerName, macaroonVersion)
+	mac, err := macaroon.New(rootKey(secret, ServerName), []byte(userID), ServerName, macaroonVersion)
 	if err != nil {
 		return nil, macaroonError(err)
 	}
@@ -108,6 +110,23 @@ func generateBaseMacaroon(
 	}
 
 	return mac, nil
+}
+
+// rootKey is the key the macaroon is made under: the server's secret bound to
+// the server's name. The name also travels in the token as the macaroon
+// location, but that field is outside the macaroon's signature - anybody
+// holding a token can rewrite it - so a token must not verify under the same
+// secret and another name.
+func rootKey(secret []byte, serverName string) []byte {
+	// (the length keeps secret and name apart; the macaroon library derives
+	// its own key from this one with an HMAC)
+	h := sha256.New()
+	var length [8]byte
+	binary.BigEndian.PutUint64(length[:], uint64(len(secret)))
+	h.Write(length[:])
+	h.Write(secret)
+	h.Write([]byte(serverName))
+	return h.Sum(nil)
 }
 
 func macaroonError(err error) error {
